@@ -10,7 +10,8 @@ from pyvc.values import REC_FIELDS
 
 CONTRACTS = []
 BT = "template.py::BaseTemplate"
-REC_FIELDS[BT] = {"value_repr": "any"}
+REC_FIELDS[BT] = {"value_repr": "any", "default_encoding": "str", "default_content_type": "str",
+                  "content_type": "str", "content_encoding": "opt[str]"}
 
 EXT = {
     'Scope': {'result': 'any'},
@@ -45,3 +46,62 @@ CONTRACTS.append(Contract(
     ghost={'externals': EXT, 'harness': ('bounded.render_harness', 'render_raising'),
            'search': {'generator': ('bounded.render_harness', 'gen_exceptions')}},
     serves=["C12"]))
+
+
+# ---------------------------------------------------------------------------
+# BaseTemplate.write (C17, C03): the sniffing decision, and that cook() sees it
+# ---------------------------------------------------------------------------
+WEXT = {
+    'read_bytes': {'result': 'tuple[str,str,opt[str]]', 'raises': ['UnicodeDecodeError', 'LookupError']},
+    'read_xml_encoding': {'result': 'opt[str]', 'as': 'rxe'},
+    'detect_encoding': {'result': 'tuple[opt[str],str]', 'as': 'detect'},
+    'self.cook': {'as': 'cook', 'raises_any': True,
+                  'snapshot': ['self.content_type', 'self.content_encoding']},
+}
+SEEN_T = "ext_snapshot('cook', 0, 'self.content_type')"
+SEEN_E = "ext_snapshot('cook', 0, 'self.content_encoding')"
+ONCE = "ext_index('cook') != -1 and ext_index('cook', 1) == -1"
+G_W = {}
+
+CONTRACTS.append(Contract(
+    BT + ".write@str", params={"self": "rec[%s]" % BT, "body": "str"},
+    requires=["self.default_content_type != ''"],
+    ensures=[
+        # the document is compiled exactly once, as given
+        ONCE + " and ext_call_arg('cook', 0, 0) == body",
+        # "Documents that start with an XML declaration are treated as XML, all others as HTML":
+        # the decision is in place when the document is compiled (PageTemplate.parse reads it)
+        "not body.startswith('<?xml') or %s == 'text/xml'" % SEEN_T,
+        "body.startswith('<?xml') or %s == (ext_call_result('detect', 0)[0] or self.default_content_type)" % SEEN_T,
+        "body.startswith('<?xml') or (ext_call_arg('detect', 0, 0) == body and "
+        "ext_call_arg('detect', 0, 1) == self.default_encoding)",
+        "not body.startswith('<?xml') or %s == ext_call_result('rxe', 0)" % SEEN_E,
+        "body.startswith('<?xml') or %s == ext_call_result('detect', 0)[1]" % SEEN_E,
+        # ... and is what the attributes report afterwards
+        "self.content_type == %s and self.content_encoding == %s" % (SEEN_T, SEEN_E),
+    ],
+    raises={'*': {'ensures': ["ext_raised_in('cook')"]}},
+    ghost=dict(G_W, externals=WEXT, harness=('bounded.write_harness', 'write_str'),
+               search={'generator': ('bounded.write_harness', 'gen_str_docs')}),
+    serves=["C17", "C03"],
+    notes="str input.  read_xml_encoding / detect_encoding are external here (their own contracts: "
+          "contracts/utils_bytes.py); cook() is external and observes the instance at the call"))
+
+CONTRACTS.append(Contract(
+    BT + ".write@bytes", params={"self": "rec[%s]" % BT, "body": "bytes"},
+    requires=["self.default_content_type != ''"],
+    ensures=[
+        "ext_call_arg('read_bytes', 0, 0) == body and ext_call_arg('read_bytes', 0, 1) == self.default_encoding",
+        # the decoded document (no byte-order mark: read_bytes' contract) is what is compiled
+        ONCE + " and ext_call_arg('cook', 0, 0) == ext_call_result('read_bytes', 0)[0]",
+        "%s == (ext_call_result('read_bytes', 0)[2] or self.default_content_type)" % SEEN_T,
+        "%s == ext_call_result('read_bytes', 0)[1]" % SEEN_E,
+        "self.content_type == %s and self.content_encoding == %s" % (SEEN_T, SEEN_E),
+    ],
+    raises={'UnicodeDecodeError': {'ensures': ["ext_index('cook') == -1"]},
+            'LookupError': {'ensures': ["ext_index('cook') == -1"]},
+            '*': {'ensures': ["ext_raised_in('cook')"]}},
+    ghost=dict(G_W, externals=WEXT, harness=('bounded.write_harness', 'write_bytes'),
+               search={'generator': ('bounded.write_harness', 'gen_bytes_docs')}),
+    serves=["C17", "C03"],
+    notes="bytes input: everything is read_bytes' decision (verified: contracts/utils_bytes.py)"))
